@@ -16,7 +16,8 @@ open Req (bs hget goGet trimOWS splitComma valuesContainToken parseNat? toHeader
 
 /-! ### the pipeline in named pieces -/
 
-def pipeClose (rc : ReqCtx) (g : GoResp) : Bool := g.close || rc.reqClose
+/-- `res.Close` as the writers see it (`writeResponse`'s close decision incl. the two re-framings) -/
+def pipeClose (rc : ReqCtx) (g : GoResp) : Bool := (frameForClient rc g).close
 
 /-- the header map the writers receive -/
 def pipeHeader (rc : ReqCtx) (g : GoResp) : HMap :=
@@ -26,26 +27,33 @@ def pipeHeader (rc : ReqCtx) (g : GoResp) : HMap :=
   let h3 := if resUp.isEmpty then h2 else goSet (goSet h2 (bs "Connection") (bs "Upgrade")) (bs "Upgrade") resUp
   if pipeClose rc g then goAdd h3 (bs "Connection") (bs "close") else h3
 
+/-- the `Trailer:` line of martian's head writer -/
+def hoTrailerLine (g : GoResp) : List (Bytes × List Bytes) :=
+  if g.trailer.isEmpty then [] else [(bs "trailer", [joinWith [44, 32] (trailerKeys g)])]
+
 /-- martian's head writer -/
 def writeHO (rc : ReqCtx) (g : GoResp) : ClientResp :=
   { minor := g.minor, status := g.status, reason := reasonOut g.reason,
-    fields := mergeFields (lowerFields (pipeHeader rc g)),
-    framing := if g.trailer.isEmpty then Framing.none else Framing.unterminatedHead,
+    fields := mergeFields (lowerFields (pipeHeader rc g) ++ hoTrailerLine g),
+    framing := Framing.none,
     body := .dropped, keepAlive := !pipeClose rc g }
 
-def wChunked (g : GoResp) : Bool := g.chunked && g.minor ≥ 1
+/-- `res.ContentLength` as `Response.Write` sees it -/
+def wLen (rc : ReqCtx) (g : GoResp) : Int := (frameForClient rc g).contentLength
+
+def wChunked (rc : ReqCtx) (g : GoResp) : Bool := (frameForClient rc g).chunked && g.minor ≥ 1
 
 def wClose (rc : ReqCtx) (g : GoResp) : Bool :=
-  pipeClose rc g || (g.contentLength == -1 && g.minor ≥ 1 && !wChunked g && !g.uncompressed)
+  pipeClose rc g || (wLen rc g == -1 && g.minor ≥ 1 && !wChunked rc g && !g.uncompressed)
 
 def wConnLine (rc : ReqCtx) (g : GoResp) : List (Bytes × List Bytes) :=
   if wClose rc g && !valuesContainToken [goGet (pipeHeader rc g) (bs "Connection")] (bs "close")
   then [(bs "connection", [bs "close"])] else []
 
-def wLenFields (g : GoResp) : List (Bytes × List Bytes) :=
-  if wChunked g then [(bs "transfer-encoding", [bs "chunked"])] ++
-    (if g.trailer.isEmpty then [] else [(bs "trailer", [joinWith [44] (g.trailer.mergeSort C16.bytesLe).eraseDups])])
-  else if g.contentLength ≥ 0 then [(bs "content-length", [natToDec g.contentLength.toNat])]
+def wLenFields (rc : ReqCtx) (g : GoResp) : List (Bytes × List Bytes) :=
+  if wChunked rc g then [(bs "transfer-encoding", [bs "chunked"])] ++
+    (if g.trailer.isEmpty then [] else [(bs "trailer", [joinWith [44] (trailerKeys g)])])
+  else if wLen rc g ≥ 0 then [(bs "content-length", [natToDec (wLen rc g).toNat])]
   else []
 
 def wExcluded : List Bytes := [bs "Content-Length", bs "Transfer-Encoding", bs "Trailer"]
@@ -54,14 +62,14 @@ def wRest (rc : ReqCtx) (g : GoResp) : List (Bytes × List Bytes) :=
   lowerFields ((pipeHeader rc g).filter fun e => !wExcluded.contains e.1)
 
 def wFraming (rc : ReqCtx) (g : GoResp) : Framing :=
-  if wChunked g then .chunked ((g.trailer.mergeSort C16.bytesLe).eraseDups)
-  else if g.contentLength ≥ 0 then .cl g.contentLength.toNat
-  else if wClose rc g then .eof else .unframed
+  if wChunked rc g then .chunked (trailerKeys g)
+  else if wLen rc g ≥ 0 then .cl (wLen rc g).toNat
+  else .eof
 
 /-- `Response.Write` -/
 def writeFull (rc : ReqCtx) (g : GoResp) : ClientResp :=
   { minor := g.minor, status := g.status, reason := reasonOut g.reason,
-    fields := mergeFields (wConnLine rc g ++ wLenFields g ++ wRest rc g),
+    fields := mergeFields (wConnLine rc g ++ wLenFields rc g ++ wRest rc g),
     framing := wFraming rc g,
     body := if g.uncompressed then .gunzip else .same, keepAlive := !wClose rc g }
 
@@ -236,6 +244,62 @@ theorem ReadOK.gz_facts (ok : ReadOK rc o g) (hunc : g.uncompressed = true) :
       simpa using hho
 
 end read
+
+/-! ### `frameForClient`: close decision and re-framing, as a function of six facts -/
+
+/-- `frameForClient` for a response that is not header-only: `a` = the client speaks HTTP/1.1,
+    `b` = the response is HTTP/1.1, `c` = chunked, `k` = close so far, `u` = `Uncompressed`,
+    `L` = `ContentLength` -/
+def frameCore (a b c k u : Bool) (L : Int) : Framed :=
+  let f0 : Framed := { chunked := c, contentLength := L, close := k }
+  let f1 : Framed := if !a && c then { chunked := false, contentLength := -1, close := true } else f0
+  if u && f1.contentLength < 0 && !f1.chunked && !f1.close then
+    if b && a then { f1 with chunked := true } else { f1 with close := true }
+  else f1
+
+theorem frameForClient_full {rc : ReqCtx} {g : GoResp} (hho : headerOnly rc.method g.status = false) :
+    frameForClient rc g =
+      frameCore (decide (rc.reqMinor ≥ 1)) (decide (g.minor ≥ 1)) g.chunked (g.close || rc.reqClose)
+        g.uncompressed g.contentLength := by
+  unfold frameForClient frameCore
+  simp only [hho, Bool.not_false, Bool.and_true]
+
+/-- header-only: nothing is re-framed -/
+theorem frameForClient_ho {rc : ReqCtx} {g : GoResp} (hho : headerOnly rc.method g.status = true) :
+    frameForClient rc g =
+      { chunked := g.chunked, contentLength := g.contentLength, close := g.close || rc.reqClose } := by
+  unfold frameForClient
+  simp only [hho, Bool.not_true, Bool.and_false, Bool.false_eq_true, if_false]
+
+/-- an HTTP/1.0 client is never promised a chunked body -/
+theorem frameCore_http10 (b c k u : Bool) (L : Int) : (frameCore false b c k u L).chunked = false := by
+  unfold frameCore
+  cases b <;> cases c <;> cases k <;> cases u <;> simp <;> split <;> rfl
+
+/-- neither chunked (for the writer) nor a length ⇒ the writer closes: given that the length is −1 or
+    non-negative, that chunked implies an HTTP/1.1 response, and that the transport has set `Close`
+    for an unknown length without chunking and without transparent gzip -/
+theorem frameCore_unframed_closes {a b c k0 q u : Bool} {L : Int} (hL : L = -1 ∨ 0 ≤ L)
+    (hcb : c = true → b = true) (hk : L < 0 → c = false → u = false → k0 = true)
+    (hch : ((frameCore a b c (k0 || q) u L).chunked && b) = false)
+    (hlen : (frameCore a b c (k0 || q) u L).contentLength < 0) :
+    ((frameCore a b c (k0 || q) u L).close ||
+      ((frameCore a b c (k0 || q) u L).contentLength == -1 && b &&
+        !((frameCore a b c (k0 || q) u L).chunked && b) && !u)) = true := by
+  rcases hL with rfl | hL
+  · have hk' := hk (by decide)
+    revert hch hlen hcb hk'
+    unfold frameCore
+    cases a <;> cases b <;> cases c <;> cases k0 <;> cases q <;> cases u <;> simp
+  · have h1 : ¬ L < 0 := by omega
+    revert hch hlen hcb
+    unfold frameCore
+    cases a <;> cases b <;> cases c <;> cases k0 <;> cases q <;> cases u <;> simp [h1] <;> omega
+
+/-- a transparently gunzipped response has no length -/
+theorem frameCore_len_unknown (a b c k u : Bool) : (frameCore a b c k u (-1)).contentLength = -1 := by
+  unfold frameCore
+  cases a <;> cases b <;> cases c <;> cases k <;> cases u <;> simp <;> split <;> rfl
 
 /-! ### the header map that was read -/
 
